@@ -38,6 +38,7 @@ ObsOk(rw, o) ==
       [] o.k = "lookup"   -> LookupOk(rw, o.id, o.r)
       [] o.k = "get"      -> GetOk(rw, o.id, o.r)
       [] o.k = "iter"     -> o.rows = rw
+      [] o.k = "repr"     -> o.ok            \* repr(g) is total (never raises), whatever the rows hold
 
 FirstBadObs(rw, obs) ==
     IF \A i \in 1..Len(obs) : ObsOk(rw, obs[i]) THEN 0
@@ -59,7 +60,7 @@ TNext ==
                                ELSE IF ~\E o \in outs : o.rows = ev.rows THEN "rows_not_allowed"
                                ELSE IF ~\E o \in outs : o.ver = ev.ver THEN "version_not_allowed"
                                ELSE "outcome_not_jointly_allowed"), 0>>)
-          /\ \A k \in {"len", "iter", "getitem", "slice", "contains", "lookup", "get"} :
+          /\ \A k \in {"len", "iter", "getitem", "slice", "contains", "lookup", "get", "repr"} :
                 LET B == {i \in 1..Len(ev.obs) : ev.obs[i].k = k /\ ~ObsOk(ev.rows, ev.obs[i])}
                 IN B # {} => PrintT(<<"REJECT", tid, l, "obs_" \o k, CHOOSE i \in B : \A j \in B : i <= j>>)
           /\ rows' = ev.rows /\ ver' = ev.ver
